@@ -213,6 +213,15 @@ impl UBig {
     }
 }
 
+#[cfg(dashu_verif)]
+impl UBig {
+    /// Verification hook: (is_negative, capacity, len, is_heap, data pointer or 0).
+    #[doc(hidden)]
+    pub fn verif_repr(&self) -> (bool, usize, usize, bool, usize) {
+        self.0.verif_repr()
+    }
+}
+
 // This custom implementation is necessary due to https://github.com/rust-lang/rust/issues/98374
 impl Clone for UBig {
     #[inline]
